@@ -2,12 +2,12 @@ SPECIFICATION TSpec
 CONSTANTS
   Senders = {"s1", "s2", "s3", "f"}
   Handlers = {"h1", "h2", "h3"}
-  MaxSend = 40
+  MaxSend = 30
   MaxRetx = 0
   Cap = 256
   Lifecycle = "inline"
   SecondCheck = TRUE
   Filter = TRUE
 CONSTRAINT Hwm
-INVARIANTS NotDone AtMostOnce NoStaleInvoke OnlyAllocated QueueBound HandlersConsistent FilterConsistent NoLoss
+INVARIANTS NotDone AtMostOnce NoStaleInvoke QueueBound
 POSTCONDITION Accepted
